@@ -2,6 +2,7 @@ package main
 
 import (
 	"go/token"
+	"go/types"
 	"strings"
 
 	"golang.org/x/tools/go/ssa"
@@ -32,6 +33,7 @@ func checkC14(c *Ctx) {
 	c14NoHandlerUnderLock(c)
 
 	pe := p.Method("core/eventloop", "EventLoop", "processEvent")
+	c14DistinctLists(c, pe)
 	// the dispatch may have two entry points instead of a mode flag: processEvent(event) for queued events, which
 	// releases the delayed events afterwards, and a private function of the loop that runs the handlers of one mode,
 	// called by processEvent with `false` and by AddEvent with `true`
@@ -1400,4 +1402,117 @@ func c14IsTableValue(k *Keyer, v ssa.Value, depth int) bool {
 	}
 	key := k.Key(v)
 	return strings.Contains(key, kEL+"handlers[") && !strings.Contains(key, "]#1")
+}
+
+// c14DistinctLists (C14.9): the snapshot lists that the dispatch fills by append (prioritised and ordinary handlers) do not
+// share storage: every list that is grown independently (its own chain of append results and loop phis) roots in an
+// allocation of its own (a pool Get, a make, nil). Two lists cut from one buffer overwrite each other as soon as the first
+// outgrows its part: a handler is then run twice and another not at all, once enough handlers are registered.
+func c14DistinctLists(c *Ctx, pe *ssa.Function) {
+	p := c.P
+	if pe == nil {
+		return
+	}
+	n := 0
+	var bad []string
+	for _, fn := range helperClosure(p, pe, 1) {
+		if funcPkgPath(fn) != funcPkgPath(pe) {
+			continue
+		}
+		// union-find over values of one accumulator
+		parent := map[ssa.Value]ssa.Value{}
+		var find func(v ssa.Value) ssa.Value
+		find = func(v ssa.Value) ssa.Value {
+			if parent[v] == nil || parent[v] == v {
+				parent[v] = v
+				return v
+			}
+			r := find(parent[v])
+			parent[v] = r
+			return r
+		}
+		union := func(a, b ssa.Value) { parent[find(a)] = find(b) }
+		isHandlerList := func(t types.Type) bool {
+			sl, ok := t.Underlying().(*types.Slice)
+			if !ok {
+				return false
+			}
+			_, isFunc := sl.Elem().Underlying().(*types.Signature)
+			return isFunc
+		}
+		var appends []*ssa.Call
+		eachInstr(fn, func(in ssa.Instruction) {
+			switch x := in.(type) {
+			case *ssa.Call:
+				if b, ok := x.Call.Value.(*ssa.Builtin); ok && b.Name() == "append" && isHandlerList(x.Type()) {
+					appends = append(appends, x)
+					union(x, x.Call.Args[0])
+				}
+			case *ssa.Phi:
+				if isHandlerList(x.Type()) {
+					for _, e := range x.Edges {
+						union(x, e)
+					}
+				}
+			}
+		})
+		if len(appends) < 2 {
+			continue
+		}
+		// roots of a component: members that are not appends or phis; a re-slice is followed to what it slices
+		rootsOf := map[ssa.Value]map[ssa.Value]bool{}
+		for v := range parent {
+			switch v.(type) {
+			case *ssa.Phi:
+				continue
+			case *ssa.Call:
+				if b, ok := v.(*ssa.Call).Call.Value.(*ssa.Builtin); ok && b.Name() == "append" {
+					continue
+				}
+			}
+			r := v
+			for {
+				sl, ok := r.(*ssa.Slice)
+				if !ok {
+					break
+				}
+				r = sl.X
+			}
+			if cst, ok := r.(*ssa.Const); ok && cst.IsNil() {
+				continue
+			}
+			comp := find(v)
+			if rootsOf[comp] == nil {
+				rootsOf[comp] = map[ssa.Value]bool{}
+			}
+			rootsOf[comp][r] = true
+		}
+		comps := map[ssa.Value]bool{}
+		for _, a := range appends {
+			comps[find(a)] = true
+		}
+		n += len(comps)
+		seenRoot := map[ssa.Value]ssa.Value{}
+		for comp := range comps {
+			for r := range rootsOf[comp] {
+				// a re-slice of a member of the same list stays in the list
+				if parent[r] != nil && find(r) == comp {
+					if _, isSlice := r.(*ssa.Slice); isSlice {
+						continue
+					}
+				}
+				if other, ok := seenRoot[r]; ok && other != comp {
+					bad = append(bad, "two lists filled by append in "+shortName(fn)+" are cut from the same buffer ("+r.Name()+" = "+r.String()+")")
+				}
+				seenRoot[r] = comp
+			}
+		}
+	}
+	if n == 0 {
+		c.Exempt("C14.9", "dispatch: the handler snapshot lists have storage of their own", p.FuncPos(pe), "the dispatch does not fill more than one list by append on this tree")
+		return
+	}
+	sortStrings(bad)
+	c.Check(len(bad) == 0, "C14.9", "dispatch: the handler snapshot lists have storage of their own", p.FuncPos(pe),
+		itoa(n)+" lists filled by append, each rooted in an allocation of its own", join(bad)+": when the first list outgrows its part of the buffer it overwrites the other (a handler runs twice, another not at all)")
 }
